@@ -11,7 +11,7 @@ PROP = {
     "fuzz": {"target": "c08_program", "runs": {"thorough": 150000}},
     "volume": {"quick": 4},
     "technique": "metamorphic property-based testing over a generated API table: hidden-lane injection, single calls and stateful programs with pooled raw results, SSE2 and core-simd builds",
-    "level_text": "Generated-input search with a metamorphic oracle (two injections of the padding lane must be indistinguishable through every public callable and through short programs of them), in the SSE2 and nightly core-simd builds. Exploration, not proof.",
+    "level_text": "Generated-input search with a metamorphic oracle (two injections of the padding lane must be indistinguishable through every public callable and through short programs of them), in the SSE2 and nightly core-simd builds. The same checks run against the SSE2 and core-simd builds with glam-assert: whether an assertion fires must not depend on the padding lane either. Exploration, not proof.",
     "level_note": "Trusted: rustc, proptest, the API-table generator (skipped callables listed in the evidence). The raw-register conversions are excluded as the statement says. NEON/wasm32 not reachable; the lane does not exist under scalar-math.",
     "design_ref": "DESIGN.md section 5 C08",
     "assumptions": ["observations of Vec3A/Mat3A/Affine3A results read the three visible lanes through to_array/to_cols_array, which are themselves callables in the table"],
